@@ -2,7 +2,7 @@
 """import_seeds.py -- copy confirmed seeded changes from /tmp/seed_out into /verif/seeded/<prop>-<k>/ ."""
 import json, os, shutil, sys, glob
 V = os.path.dirname(os.path.dirname(os.path.abspath(__file__)))
-FIRST_MISSED = {"C06-1", "C06-3", "C07-1", "C08-2", "C17-3", "C10-2", "C15-2", "C15-3", "C19-2", "C13-1", "C04-1", "C11-3"}
+FIRST_MISSED = {"C06-1", "C06-3", "C07-1", "C08-2", "C17-3", "C10-2", "C15-2", "C15-3", "C19-2", "C13-1", "C04-1", "C11-3", "C05-2", "C05-3"}
 for d in sorted(glob.glob("/tmp/seed_out/C*/*")):
     prop, k = d.split("/")[-2], d.split("/")[-1]
     rp = os.path.join(d, "result.json")
